@@ -11,6 +11,8 @@ import shutil
 import tempfile
 import warnings
 
+import numpy as np
+
 from ..gen import basis as gb
 from ..gen import corpus
 from ..gen import objects as go
@@ -36,6 +38,14 @@ def plan(tier, seed):
             cases.append({"kind": "gen", "fmt": fmt, "i": i, "seed": seed})
     for e in corpus.entries(max_cost=1.0 if tier == "quick" else 4.0):
         cases.append({"kind": "corpus", "file": e["file"], "fmt": e["fmt"], "explicit": e["explicit"]})
+    # files shaped like the producing programs write them (every model class of the specification-following writers), converted
+    # to every format that accepts them - the corpus holds one or two files per format only
+    from ..ref import spec_writers
+
+    for name, mod in sorted(spec_writers.all_writers().items()):
+        for klass in mod.CLASSES:
+            for rep in range(1 if tier == "quick" else 12):
+                cases.append({"kind": "specfile", "writer": name, "klass": klass, "rep": rep, "seed": seed})
     return cases
 
 
@@ -129,7 +139,8 @@ def run_case(case):
     import iodata
 
     viols, feats = [], []
-    counters = {"first_save_refused": 0, "first_reload_failed": 0, "generation1": 0, "generation2": 0, "generation3": 0}
+    counters = {"first_save_refused": 0, "first_reload_failed": 0, "generation1": 0, "generation2": 0, "generation3": 0, "wfn_ungrouped_mospin": 0, "spec_files": 0,
+                "spec_files_loaded": 0}
     root = tempfile.mkdtemp(prefix="vf_c15_")
     try:
         if case["kind"] == "gen":
@@ -146,6 +157,17 @@ def run_case(case):
             if case["i"] % 4 == 3:
                 go.relayout(x0, gb.rng_for(15, 77, case["seed"], case["i"]))
                 klass += "+layout"
+            if fmt == "wfn" and case["i"] % 4 == 0 and not (x0.mo is not None and x0.mo.kind == "unrestricted" and x0.mo.norbb):
+                from ..gen import wfnobjects as wo
+
+                x0, _ = wo.make(rng, "wfn", nbasis_max=20, spin="unrestricted", contraction="segmented", ghosts="none")
+            if fmt == "wfn" and x0.mo is not None and x0.mo.kind == "unrestricted" and x0.mo.norbb and case["i"] % 2 == 0:
+                # the per-orbital spin labels of the Multiwfn extension, kept verbatim in extra: labels that are not grouped alpha
+                # first (the labels are per orbital; nothing obliges a producer to group them)
+                labels = np.array([1] * x0.mo.norba + [2] * x0.mo.norbb)
+                x0.extra = dict(x0.extra, mo_spin=labels[rng.permutation(len(labels))])
+                klass += "+ungrouped_mospin"
+                counters["wfn_ungrouped_mospin"] += 1
             if x0.atcoords is not None and x0.mo is None and case["i"] % 3 == 1:
                 # numerical noise around zero and signed zeros (planar / symmetric geometries out of an optimiser)
                 xyz = x0.atcoords.copy()
@@ -156,6 +178,33 @@ def run_case(case):
             if cycles(x0, fmt, root, f"generated {fmt}/{klass}", False, viols, counters):
                 feats.append(f"gen:{fmt}:{klass}")
             sample = {"fmt": fmt, "klass": klass}
+        elif case["kind"] == "specfile":
+            from ..ref import spec_writers
+
+            mod = spec_writers.all_writers()[case["writer"]]
+            rng = gb.rng_for(15, 5, case["seed"], case["rep"], sum(map(ord, case["writer"] + case["klass"])))
+            model = mod.generate(rng, case["klass"])
+            src = os.path.join(root, getattr(mod, "filename", lambda m: mod.FILENAME)(model))
+            with open(src, "w") as fh:
+                fh.write(mod.write(model))
+            counters["spec_files"] += 1
+            with warnings.catch_warnings():
+                warnings.simplefilter("ignore")
+                try:
+                    x0 = iodata.load_one(src, fmt=mod.FORMAT if getattr(mod, "EXPLICIT_FMT", False) else None,
+                                         **getattr(mod, "load_kwargs", lambda m: {})(model))
+                except iodata.utils.LoadError:
+                    return {"status": "skip"}  # C03's business
+            counters["spec_files_loaded"] += 1
+            big = x0.obasis is not None and x0.obasis.nbasis > 60
+            for fmt in go.DUMP_FORMATS:
+                if big and fmt in ("molden", "molekel"):
+                    continue
+                sub = os.path.join(root, "to_" + fmt)
+                os.makedirs(sub)
+                if cycles(x0, fmt, sub, f"{case['writer']}/{case['klass']} file -> {fmt}", True, viols, counters):
+                    feats.append(f"spec:{case['writer']}:{case['klass']}->{fmt}")
+            sample = {"writer": case["writer"], "klass": case["klass"], "formats_cycled": [f.split("->")[1] for f in feats]}
         else:
             src = os.path.join(corpus.bootstrap.DATA_DIR, case["file"])
             with warnings.catch_warnings():
